@@ -15,7 +15,7 @@ import (
 
 // C15: outcomes are deterministic.
 
-var c15Kinds = []string{"help-map-default", "man-page", "ini-write-maps", "ini-same-option-in-sections", "ini-two-unknown-sections", "required-list", "command-list", "completion-list", "choice-message", "env-map-default", "help-full", "ini-callbacks-in-sections"}
+var c15Kinds = []string{"help-map-default", "man-page", "ini-write-maps", "ini-same-option-in-sections", "ini-two-unknown-sections", "required-list", "command-list", "completion-list", "choice-message", "env-map-default", "help-full", "ini-callbacks-in-sections", "ini-read-then-write"}
 
 func c15Decl(r *Rand, kind string) *Decl {
 	cfg := &DeclCfg{
@@ -207,6 +207,45 @@ func c15Run(c *Ctx) {
 			d, b := mk()
 			err := flags.NewIniParser(b.P).Parse(strings.NewReader(text))
 			return fmt.Sprintf("err=%v\nsnap=%v\nlog=%v", err, sortedSnap(d.Snapshot()), b.Log.E), nil
+		}
+	case "ini-read-then-write":
+		// one option named in several ways (and in several places) by the file that is read, then written back
+		pr := &Rand{s: seedP}
+		var cands []*Opt
+		for _, o := range d0.Opts {
+			if o.Cmd == d0.Root && !o.T.IsFunc() && !o.T.IsFlag() && o.Long != "" && len(o.Choices) == 0 && !o.Hidden && !o.NoIni {
+				cands = append(cands, o)
+			}
+		}
+		if len(cands) == 0 {
+			return
+		}
+		var lines []string
+		for i := 0; i < 2 && i < len(cands); i++ {
+			o := cands[pr.Intn(len(cands))]
+			names := []string{o.Field, d0.FullLong(o)}
+			if o.Short != 0 {
+				names = append(names, string(o.Short))
+			}
+			if o.IniName != "" {
+				names = append(names, o.IniName)
+			}
+			sec, _ := sectionOf(o)
+			lines = append(lines, "["+sec+"]")
+			for _, nm := range names {
+				lines = append(lines, nm+" = "+GenScalarTextSimple(pr, o))
+			}
+		}
+		text := strings.Join(lines, "\n") + "\n"
+		detail = text
+		eval = func() (string, error) {
+			d, b := mk()
+			ip := flags.NewIniParser(b.P)
+			err := ip.Parse(strings.NewReader(text))
+			b.P.ParseArgs(nil)
+			var buf bytes.Buffer
+			ip.Write(&buf, flags.IniIncludeDefaults)
+			return fmt.Sprintf("err=%v\n%s\n%s", err, sortedSnap(d.Snapshot()), buf.String()), nil
 		}
 	case "ini-two-unknown-sections":
 		text := "[No Such A]\nx = 1\n[No Such B]\ny = 2\n[No Such C]\nz = 3\nzz_unknown = 1\n"
